@@ -35,7 +35,7 @@ func init() {
 		Rule:           "runs = either (a) a walk of the simulated clock from before genesis through 200-2000 instants (slot edges -1s/0/+1s/+299s/+300s, strides of hours to years, the end of the 32 bit second range in year 2159) comparing CurrentTimeslot, UnixToTimeslot and TimeslotToUnix with an integer model, round trip and monotonicity, or (c) a production-constant server run of 2-4 simulated weeks with two devices reporting now+432 and now-432 every slot and, now and then, 433-2000 slots off (which must leave no trace), the rotation thread delayed by up to one check period, WattTime answering, slow or failing; non-trivial = a cadence run that rotated at least once with a delayed rotation thread, or a clock walk that crossed the far end; distinct = distinct decision signatures",
 		Real:           []string{"glow timeslot conversions and the production CurrentTimeslot", "production-constant server: rotation loop (hourly check), impact loop, weekly WattTime refresh, report handler"},
 		Stub:           []string{"system clock (bubble clock, 2000-01-01 onwards, forward only)", "WattTime service (harness responder behind http.DefaultTransport)", "socket listeners"},
-		Assumptions:    []string{"the pure conversion functions are exercised at the instants the simulated clock visits plus the listed boundaries (input enumeration, not simulation)", "the acceptance comparison at now<432 is covered by C01 (test flavour); now near 2^32 is unreachable by real rotations"},
+		Assumptions:    []string{"the pure conversion functions are exercised at the instants the simulated clock visits plus the listed boundaries (input enumeration, not simulation)", "the acceptance comparisons at the ends of the 32 bit range (clock below 432, clock and timeslots near 2^31 and 2^32) are exercised by the test-flavour supplement (settable protocol clock), which runs for a third of the budget; the production flavour cannot move its clock there"},
 		RequiredProbes: []string{"c20.walk.far-end", "c20.walk.pre-genesis", "c20.cadence.rotated", "c20.cadence.delayed-rotation", "c20.cadence.watttime-fault", "c20.cadence.edge-report", "c20.cadence.beyond-half-width", "c20.cadence.watttime-outage"},
 	})
 }
